@@ -21,6 +21,19 @@ def tok(name):
     return f"⟦{name}⟧"
 
 
+def _simple_field_default(value):
+    """Default of a declared field when it is a literal or a dict/list/set factory; Ellipsis otherwise."""
+    if isinstance(value, ast.Constant):
+        return value.value
+    if isinstance(value, ast.Call):
+        for kw in value.keywords:
+            if kw.arg == "default" and isinstance(kw.value, ast.Constant):
+                return kw.value.value
+            if kw.arg in ("factory", "default_factory") and isinstance(kw.value, ast.Name) and kw.value.id in ("dict", "list", "set"):
+                return {"dict": dict, "list": list, "set": set}[kw.value.id]()
+    return Ellipsis
+
+
 class Obj:
     """A symbolic object with attributes (target, self, backend ...)."""
 
@@ -32,7 +45,20 @@ class Obj:
         try:
             return self.__dict__["_attrs"][k]
         except KeyError:
-            raise AttributeError(k)
+            pass
+        # a stand-in built by a witness with only the attributes it cares about: a field the class declares with a simple default (a flag, a counter,
+        # a cache made by factory=dict ...) exists on every real instance, so it exists here too, per instance
+        cls = self.__dict__["_attrs"].get("__class__")
+        fields = getattr(cls, "fields", None)
+        if fields and not k.startswith("__"):
+            for name, _ann, value in fields:
+                if name != k:
+                    continue
+                v = _simple_field_default(value)
+                if v is not Ellipsis:
+                    self.__dict__["_attrs"][k] = v
+                    return v
+        raise AttributeError(k)
 
     def __setattr__(self, k, v):
         self.__dict__["_attrs"][k] = v
@@ -52,8 +78,15 @@ class Obj:
         return repr(self)
 
 
+NOT_MODELLED = "[not-modelled]"
+
+
 class Unsupported(Exception):
-    pass
+    """The checker's interpreter met a construct it does not model.  Its text carries a marker: a verdict whose message derives from such an evaluation
+    is never reported as a VIOLATION (report.Rule.violation turns it into an analysis error) - the code may be perfectly fine."""
+
+    def __str__(self):
+        return f"{NOT_MODELLED} {super().__str__()}"
 
 
 class _Return(Exception):
